@@ -462,9 +462,16 @@ impl EntriesIt {
     // R13: `.pre_op(move |x| { .. })`: the boxed closure is verified as its own item (chmod_pre_op)
     #[verifier::external_body] pub fn pre_op_set(self) -> (r: EntriesIt) ensures r.left() == self.left(), r.troot() == self.troot() { unimplemented!() }
 }
+// the request _chmod sends: an octal value of 0 means "no mode given" everywhere in the chmod API, so mode 0 must never be requested
+#[verifier::external_body]
+pub fn os_chmod_request<T: PathArg>(p: T, mode: u32) -> (r: RvResult<()>)
+    requires mode != 0
+    ensures r is Ok ==> os_mode_set(p.pc(), mode)
+{ unimplemented!() }
 impl Stdfs {
 //@ item chmod_pre_op file=src/sys/fs/stdfs/mod.rs block="impl Stdfs" fn=_chmod closure=1 props=C11,C12
 //@ sig closure |x| in fn _chmod(opts: ChmodOpts) -> RvResult<()>
+//@ rw R8 + re⟦\bfs::set_permissions\(([^,]+), fs::Permissions::from_mode\(([^()]+)\)\)⟧ => ⟦os_chmod_request(\1, \2)⟧
 //@ rw R8 + re⟦\bsys::mode\(⟧ => ⟦sys_mode(⟧
 //@ rw R8 + re⟦\bsys::revoking_mode\(⟧ => ⟦revoking_mode(⟧
     pub fn chmod_pre_op(x: &VfsEntry, m: &ChmodOpts) -> (r: RvResult<()>)
@@ -472,12 +479,13 @@ impl Stdfs {
             let m1 = spec_mode(x.xlink(), x.xdir(), x.xfile(), x.xmode(), m.dirs, m.sym@);
             &&& m1 is Some
             // granting phase: a directory gets its new mode on the way in only when that takes no read/execute bit away
-            &&& ((!x.xlink() || m.follow) && x.xdir() && !revoking(x.xmode(), m1->Some_0) && x.xmode() != m1->Some_0) ==> os_mode_set(abs_comps(x.xpath()), m1->Some_0)     //@ clause stdfs.chmod.pre_op_grants_directory_mode_when_not_revoking [C11]
+            &&& ((!x.xlink() || m.follow) && x.xdir() && m1->Some_0 != 0 && !revoking(x.xmode(), m1->Some_0) && x.xmode() != m1->Some_0) ==> os_mode_set(abs_comps(x.xpath()), m1->Some_0)     //@ clause stdfs.chmod.pre_op_grants_directory_mode_when_not_revoking [C11]
         }),
 //@ body
 
 //@ item _chmod file=src/sys/fs/stdfs/mod.rs block="impl Stdfs" fn=_chmod props=C11,C12
 //@ sig fn _chmod(opts: ChmodOpts) -> RvResult<()>
+//@ rw R8 + re⟦\bfs::set_permissions\(([^,]+), fs::Permissions::from_mode\(([^()]+)\)\)⟧ => ⟦os_chmod_request(\1, \2)⟧
 //@ rw R13 1 re⟦\.pre_op\(move \|x\| \{.*?\}\);⟧ => ⟦.pre_op_set();⟧
 //@ rw R8 + re⟦\bsys::mode\(⟧ => ⟦sys_mode(⟧
 //@ rw R3 1 for
